@@ -171,7 +171,9 @@ update_clocks(struct player *player, struct stream *stream)
 	}
 
 	player->lastclock = sclock;
-	player->deltaclock = player->lastclock - player->firstclock;
+	/* Unsorted players may jump by more than an int64_t: wrap, don't overflow */
+	player->deltaclock = (int64_t) ((uint64_t) player->lastclock
+			- (uint64_t) player->firstclock);
 
 	return 0;
 }
